@@ -5,11 +5,87 @@ V = os.path.dirname(os.path.dirname(os.path.abspath(__file__)))
 props = [json.loads(l) for l in open(os.path.join(V, "properties.jsonl"))]
 
 CLAIMS = {
+    "C01": dict(
+        technique="TLA+ transcription of the enum formatter and parser (EnumFormat.tla, EnumParser.tla = state machine M1) model-checked by TLC on the vocabulary dumped from the code; every explored value replayed through the real formatter and parser and judged by a TLC trace specification",
+        text="TLC checks ModelParse(ModelFormat(v)) = v on the code's own keyword tables for a bounded-exhaustive universe (all 30 constructors over an atom pool, every image index, depth-2 terms, sentences and tasks over all punctuations, stamp kinds incl. isize extremes, truth and budget arities) in all three formats; each value is formatted and re-parsed by the real library and TLC compares the projected result with the value on canonical forms. Model/code disagreement that does not contradict the property is reported as DRIFT. Bounded, not a proof for all values; adversarial Han names are covered by the name stage (known finding F7).",
+        design_ref="DESIGN.md §7 C01",
+        note="assumes names from pools that contain no keyword of the format under test, except in the adversarial-name stage; deep nesting beyond depth 2 only through the seeded driver"),
+    "C02": dict(
+        technique="TLA+ transcription of the lexical formatter and parser (LexParser.tla, window machine M8) checked by TLC on the dumped lexical tables; each value replayed through the real lexical formatter and parser, judged field for field by TLC",
+        text="Vocabulary-consistent lexical values (every connecter with 1..4 components, both set brackets, all copulas, nesting <= 2, 0..3 truth entries, 0..4 budget entries, all stamp forms, every term ending) are enumerated by TLC, the model round trip and the length invariant are checked, and the real round trip is compared structurally.",
+        design_ref="DESIGN.md §7 C02",
+        note="names contain no keyword of the format (the statement's own restriction)"),
+    "C03": dict(
+        technique="TLC checks vocabulary agreement of the dumped enum and lexical tables (MC_Vocab.tla) and generates texts (values of C01's universe formatted by the real formatter; sugar texts of Sugar.tla); both real pipelines are run on every text and judged by the TLC trace specification J_Pipe",
+        text="Both pipelines must accept every generated text and return the value the text was generated from; the enum and lexical tables of each format must describe the same keywords for every constructor. Bounded-exhaustive over the universes of C01 and C10.",
+        design_ref="DESIGN.md §7 C03",
+        note="same universes and name pools as C01 / C10"),
+    "C04": dict(
+        technique="TLA+ model of the enum parser's cursor/slot machine M1 explored by TLC over all token strings up to a bound and over edited well-formed texts (state invariants: every error window can be sliced, every step advances); every string, plus seeded long/deep inputs, run through all real enum entry points under a watchdog and judged by TLC",
+        text="Exhaustive over token strings of length <= 3 (quick) / 4 (thorough) from a 44-token alphabet per format and over single (double) token/character edits of well-formed texts; sampled for long (<= 512 chars), deep (<= 64) and arbitrary-Unicode inputs. A panic, a timeout or an undisplayable error of any entry point is a violation; lenient acceptance is not.",
+        design_ref="DESIGN.md §7 C04",
+        note="bounded time is decided by a 5 s watchdog per input; memory safety beyond 'no panic observed' is not claimed"),
+    "C05": dict(
+        technique="TLA+ model of the lexical parser's window machine M8 and of fold (LexParser.tla, Fold.tla) explored by TLC over the same string universes and over arbitrary lexical values (MC_FoldAny.tla); real lexical parse / parse_term / fold run on every case and judged by TLC",
+        text="As C04 for the lexical parser (window and length invariants in the model, no panic / timeout on the real code), plus folding of arbitrary lexical values: unknown prefixes / connecters / copulas / brackets, every arity 0..3 per connecter, missing or repeated placeholders, non-numeric and out-of-range number strings, malformed stamps and punctuations.",
+        design_ref="DESIGN.md §7 C05",
+        note="as C04"),
+    "C06": dict(
+        technique="TLA+ model M4 of Term equality/hashing with the hidden iteration order of every HashSet instance as nondeterministic state (EqHash.tla), model-checked by TLC for all orders; recipe pairs (construction histories) replayed on the real code several times and judged by TLC",
+        text="TLC checks for all pairs of built terms of depth <= 2 and ALL iteration orders that the transcribed PartialEq is canonical equality, symmetric and reflexive (negative control: the pinned tree's order-dependent Hash violates it). The real == is observed on thousands of recipe pairs (permuted / duplicated insertion orders, swapped symmetric operands, near misses), repeated with fresh random states, on triples for transitivity and on double parses.",
+        design_ref="DESIGN.md §7 C06/C07",
+        note="hash collisions of the std hashers are ignored; nesting depth of the conformance universe <= 3"),
+    "C07": dict(
+        technique="same model M4 (EqHash.tla): invariant 'canonically equal terms feed equal hash input' checked by TLC for all iteration orders; real hashes (DefaultHasher, RandomState), HashSet.contains and HashMap.get observed on recipe pairs and judged by TLC",
+        text="Whenever the two recipes of a pair denote the same canonical value, the real terms must hash equally under a fixed and under a fresh random hasher and must be found in a HashSet / HashMap keyed by the other; also for two parses of the same text.",
+        design_ref="DESIGN.md §7 C06/C07",
+        note="as C06"),
+    "C08": dict(
+        technique="TLA+ state machine M1 with the input queue (MC_C08.tla: actions ResetTo, Consume over a fragment pool) model-checked by TLC for all input sequences up to a bound, with a negative control; every sequence replayed through the real parse_multi and judged by TLC",
+        text="All sequences of length 3 (quick) / 4 (thorough) over 16 fragments per format (complete, partial, invalid inputs that leave different slots filled) are explored; invariant: every result equals the fresh parse. The real parse_multi is compared position by position with fresh parse, second parse and parse_chars, and the lexical parser is run along the same history.",
+        design_ref="DESIGN.md §7 C08",
+        note="exhaustive over the fragment pool only"),
+    "C09": dict(
+        technique="token-level model of the formatter (EnumFormat.tla) with explicit spacings as TLC state; TLC checks the model parser on every explored spacing and emits the spaced texts for both real pipelines (and the macros), judged by TLC",
+        text="Per value: 0/1/2 spaces everywhere, every single boundary opened alone and closed alone (exhaustive over the boundaries of each explored value), a wide gap, pseudo-random spacings, and tab/newline/U+3000 for the lexical pipeline. Both real pipelines must return the value.",
+        design_ref="DESIGN.md §7 C09",
+        note="atom = one token, number = one token (DESIGN §9c)"),
+    "C10": dict(
+        technique="independent TLA+ statement of the sugar's meaning (Sugar.tla: Desugar) checked by TLC against the model parser; sugar texts run through both real pipelines and judged against Desugar by TLC",
+        text="The four derived copulas over an operand pool, image component lists with one or two placeholders at every position, raw interval / placeholder texts, duplicated set components, nested under every parent kind and under sentences / tasks; both real pipelines must return Desugar(tree).",
+        design_ref="DESIGN.md §7 C10",
+        note="operand pool bounded (atoms, one compound per shape, sample/all of U1)"),
+    "C11": dict(
+        technique="rule-by-rule TLA+ transcription of the README PEG (Peg.tla) and of the published lexicon; TLC runs the grammar on the REAL ASCII output of both formatters and compares kind and derivation tree with the library's lexical parser",
+        text="The dumped ASCII tables (enum and lexical) must equal the published lexicon; the grammar must accept every real ASCII string with the value's kind and derive the tree the library's ASCII lexical parser returns. Detects formatter and parser drifting together away from the published grammar.",
+        design_ref="DESIGN.md §7 C11",
+        note="Unicode categories are written out for the characters that can occur (ASCII + name pool)"),
+    "C12": dict(
+        technique="well-formedness predicates in TLA+ (Values.tla) as invariants of the parser / fold models over the garbage universes; every Ok result of the real enum parser and of real fold judged by TLC",
+        text="Over the string universes of C04/C05 and the arbitrary lexical values of MC_FoldAny: every accepted value must satisfy WFParsed / WFFolded (ranges, image index, names, emptiness, arity) and be formattable in all three formats and Typst without panic.",
+        design_ref="DESIGN.md §7 C12",
+        note="fold results are held to ranges and image index only (DESIGN §9d)"),
+    "C13": dict(
+        category="exploration",
+        technique="TLA+ model of the constructors over a partition of f64 into 11 classes (Numbers.tla); TLC enumerates all class tuples, the harness instantiates them with concrete bit patterns, TLC judges the observations",
+        text="Exploration by partition: all tuples of float classes of arity 0..3 (quick) / 0..5 (thorough), several concrete floats per class incl. boundaries (1+ulp, largest below 1, subnormals, -0.0, NaNs, infinities). Decides constructor outcome, panic <=> Err, stored bits, accessor panics, is_valid / try_validate / validate agreement, root of valid is valid. A defect affecting a single float inside a class is invisible.",
+        design_ref="DESIGN.md §7 C13, §2",
+        note="TLC has no floats: the property is decided on classes; class membership of the concrete bit patterns is trusted"),
     "C14": dict(
         technique="TLA+ model (TermOps.tla: accessor laws, ImageIterator state machine M5) checked by TLC; every model value replayed on the real accessors and judged by a TLC trace specification",
         text="TLC explores the ImageIterator machine for every (length, index) up to the bound and the accessor/category/capacity laws on a bounded-exhaustive universe of terms (every constructor, every image index, unordered and nested shapes); each explored value is sent to the real library and the recorded answers are judged by TLC against the same operators. Bounded-exhaustive, not a proof for all terms.",
         design_ref="DESIGN.md §7 C14",
         note="assumes the JSON projection of terms is faithful; deep nesting beyond depth 2 is not enumerated"),
+    "C15": dict(
+        technique="TLA+ state machine M3 of a Narsese value under the conversion API (Lifecycle.tla) explored by TLC for all operation sequences; behaviours replayed on real values of both data models and judged step by step; item-subset classification through both parsers",
+        text="All operation sequences of length 3 (quick) / 4 (thorough) from term / sentence / task values of both models; the conversion equations are invariants. All 32 item subsets x junction terms x spacings x formats for the classification clause. The kind clause of format-then-parse is additionally checked on every round trip of C01.",
+        design_ref="DESIGN.md §7 C15",
+        note="classification is asserted only for inputs that carry a term and that a parser accepts (DESIGN §9e)"),
+    "C16": dict(
+        technique="TLA+ layout model of the Typst renderer (Typst.tla) on the dumped constants: TLC checks injectivity on the universe by cardinalities and normalisation; real renderings judged by a TLC trace specification that keeps the history of (text, value) pairs (M6)",
+        text="Every value of the universe is rendered several times from freshly built copies; no panic, character-wise whitespace normalisation, agreement of the copies up to component order, and over the whole run no text may stand for two different values (complete pairwise decision through set cardinalities).",
+        design_ref="DESIGN.md §7 C16",
+        note="collisions are searched among the values of one run only"),
     "C17": dict(
         technique="TLA+ state machine of the two mutators (Mutators.tla) explored by TLC; each behaviour replayed on a real Term and judged step by step by a TLC trace specification",
         text="All operation sequences up to the bound over a fixed pool of name arguments and component lists, from one start term per constructor and shape, are explored by TLC (invariants + action properties) and every behaviour is replayed on the real code, comparing result, post-state and name accessor after each step. Arguments outside the pool are not covered.",
